@@ -490,6 +490,20 @@ def c09g_staging(ctx):
             if field in df.access_path(b, s_.node["args"][1]) or any(field in df.access_path(b, y.site.node["args"][0]) for y in df.origins_of_operand(b, s_.node["args"][1]) if y.kind == "call" and y.site.node["args"]):
                 return s_
         return None
+    # every member handed out by the store scan ends up in the loaded set (or, after the spill, in the remaining stream): the
+    # element that trips the threshold was already taken from the iterator
+    nx = [s_ for s_ in b.calls_to(r"Iterator::next$") if any(x.kind == "call" and (x.callee() or "").endswith("scan_members") for x in df.origins_of_operand(b, s_.node["args"][0]))]
+    ins_scan = [s_ for s_ in b.calls_to(r"ConcurrentSet::insert_element$")
+                if any(x.kind == "call" and (x.site in nx or (x.callee() or "").endswith("scan_members")) for x in df.origins_of_operand(b, s_.node["args"][1]))]
+    if len(nx) != 1 or not ins_scan:
+        ctx.fail(o, Site(b, 0, 0), "anchor missing: the scan loop of fetch_entry (next=%d, inserts of scanned members=%d)" % (len(nx), len(ins_scan)))
+    else:
+        some = [(sb, tb) for sb, tb, v, c in df.variant_edges(b, "Option") if v == 1 and b.site_dominates(nx[0], Site(b, sb, 0)) and nx[0].node["t"] == sb]
+        for sb, tb in some:
+            bad = b.must_pass([tb], [s_.bb for s_ in ins_scan], to_bbs=b.returns() + [nx[0].bb])
+            if bad:
+                ctx.fail(o, nx[0], "fetch_entry can take a member from the store scan and go on (or return the spilled state) without putting it into the set: that member is "
+                         "in neither the buffered half nor the remaining stream")
     add = overlay(r"ConcurrentSet::insert_element$", "added")
     rem = overlay(r"ConcurrentSet::remove_element$", "removed")
     o.sites = int(add is not None) + int(rem is not None)
